@@ -187,6 +187,19 @@ def run(ctx: core.Ctx):
             np.random.seed(ctx.seed + 31 * b)
             for k in range(6):
                 ev_big += run_events(src_a, c, ids, cid, cid, src_obj=src, inv=inv)
+    # few scored samples, many easy ones: 'dynamic' must still resolve on the SCORED class sizes
+    for b in range(2):
+        src_a = {"pos": sorted(int(x) for x in rnd.randint(0, 40, 7)), "neg": sorted(int(x) for x in rnd.randint(0, 40, 5)),
+                 "ep": 300, "en": 400, "sc": ["pos", "neg"][b], "ec": ["neg", "neg"][b]}
+        for method, strat in (("dynamic", "none"), ("dynamic", "by_label"), ("replacement", "by_label")):
+            c = {"method": method, "strat": strat, "ratio": [1, 2]}
+            cid = len(cases)
+            cases.append({"kind": "many_easy", "src": src_a, "cfg": c, "np_seed": ctx.seed + 77 * b})
+            src = sd.build(src_a, G)
+            inv = sd.inv_map(G, -2, 300)
+            np.random.seed(ctx.seed + 77 * b)
+            for k in range(8):
+                ev_big += run_events(src_a, c, ids, cid, cid, src_obj=src, inv=inv)
     ctx.sample([e for e in ev_small if e["cid"] == len(states) // 2])
     ctx.judge("Trace_C11", ev_small, cases=cases, tag="small", batch=4000,
               consts_cfg=JUDGE_CONSTS.format(th=2))
@@ -216,6 +229,8 @@ def replay(ctx: core.Ctx, body):
         ctx.judge("Trace_C11", evs, cases=[c], consts_cfg=JUDGE_CONSTS.format(th=2))
     else:
         evs = []
+        if c["kind"] == "many_easy":
+            c = dict(c, M=8)
         src = sd.build(c["src"], G)
         inv = sd.inv_map(G, -2, 300)
         np.random.seed(c.get("np_seed", 0))
